@@ -4,6 +4,9 @@
 // compiled only under the build tag "verif").
 package coalesce
 
+// Every function under contract in this package also serves the properties that depend on the whole package.
+//@ package-props C01 C04 C05 C08 C11
+
 //@ flagchan Queue.closed
 
 // Representation invariant of the queue under its mutex: the queue holds each
